@@ -164,6 +164,7 @@ def extra(defs, lab, ab, src, label_max, name_max, lim, LIM):
     slicing_items(defs, ab)
     uncertain_items(defs, lim, LIM)
     serde_const_items(defs, ab)
+    reverse_items(defs, ab)
 
 
 def message_zonefile_items(defs, ab, lim, LIM):
@@ -384,6 +385,25 @@ def text_items(defs, lab, src):
     b = fn_body(src, "parse_escape")
     m = one(r"if v > " + NUM + r" \{\s*return Err\(SymbolCharsError::bad_escape\(\)\.into\(\)\);\s*\}\s*Ok\(v as u8\)\s*\} else if ch == '\[' \{\s*if in_label \{\s*Ok\(b'\['\)\s*\} else \{\s*Err\(LabelFromStrErrorEnum::BinaryLabel\.into\(\)\)\s*\}\s*\} else \{\s*Ok\(ch as u8\)\s*\}\s*$", b, "parse_escape")
     nn("escape_dec_max", num(m.group(1)))
+
+
+def reverse_items(defs, ab):
+    """Name::reverse_from_addr: the builder sequence of both arms (order of the
+    decimal labels, item then item >> 4 over the reversed octets, the two
+    suffix labels, into_name) and the suffix label literals"""
+    b = fn_body(ab, "reverse_from_addr")
+    LBL = r'builder\.append_label\(b"([^"\\]*)"\)\?;\s*'
+    m = one(r"^\s*let mut builder =\s*NameBuilder::<<Octs as FromBuilder>::Builder>::new\(\);\s*match addr \{\s*"
+            r"IpAddr::V4\(addr\) => \{\s*let \[a, b, c, d\] = addr\.octets\(\);\s*builder\.append_dec_u8_label\(d\)\?;\s*"
+            r"builder\.append_dec_u8_label\(c\)\?;\s*builder\.append_dec_u8_label\(b\)\?;\s*builder\.append_dec_u8_label\(a\)\?;\s*"
+            + LBL + LBL + r"\}", b, "reverse_from_addr IPv4 arm")
+    v4 = (m.group(1), m.group(2))
+    m = one(r"IpAddr::V6\(addr\) => \{\s*for &item in addr\.octets\(\)\.iter\(\)\.rev\(\) \{\s*builder\.append_hex_digit_label\(item\)\?;\s*"
+            r"builder\.append_hex_digit_label\(item >> 4\)\?;\s*\}\s*" + LBL + LBL + r"\}\s*\}\s*builder\.into_name\(\)\s*$", b, "reverse_from_addr IPv6 arm")
+    v6 = (m.group(1), m.group(2))
+    def lit(name, t): defs.append((name, "list N", "[" + "; ".join("%d%%N" % ord(c) for c in t) + "]"))
+    lit("rev_v4_label1", v4[0]); lit("rev_v4_label2", v4[1])
+    lit("rev_v6_label1", v6[0]); lit("rev_v6_label2", v6[1])
 
 
 if __name__ == "__main__":
